@@ -457,6 +457,8 @@ class FRef:
                 ov = ov / np.linalg.norm(ov) * op.get('other_norm', 1.0)
             self.vec = cplx(op['alpha']) * self.vec + cplx(op['beta']) * ov
             self.canonicalised()
+            if 'cutoff' in op and op['cutoff'] is None:
+                self.zero_S = True                    # no cutoff: exactly zero singular values of a rank-deficient sum are kept
         elif t == 'spatial_inversion':
             ax = list(range(L))[::-1] + ([L + 1, L] if self.nvirt else [])
             self.vec = np.transpose(self.vec, ax)
@@ -494,8 +496,6 @@ def check_refusal(op, ex, failf):
         failf('the call was accepted although the documentation excludes it (%s)' % op['must_raise'])
     elif ex['raised'][0] not in ('ValueError', 'NotImplementedError', 'AssertionError', 'TypeError'):
         failf('refused with %s: %s instead of a ValueError (%s)' % (ex['raised'][0], ex['raised'][1], op['must_raise']))
-    if 'changed' in ex:
-        failf('the refused call modified the state: ' + ex['changed'])
 
 
 def check_enlarge_perms(A, prev_kk, prev_o, kk, o, ex, finite, failf):
